@@ -15,6 +15,7 @@ CHUNK = 8
 DET_K = 4
 SELFTEST = {'quick': 16, 'thorough': 128}
 TOL = 1e-11
+REQUIRED_PROBES = ['fn_pert', 'fn_rho', 'storage_complex128', 'storage_float64', 'two_finders_on_one_spline', 'data_equilibrium']
 RULE = ('case = (grid sizes incl. several v sizes, equilibrium profiles made strongly radius dependent '
         '[kN0, kTi randomised], 1-3 process grids incl. non-dividing ones, density storage real or complex, '
         'getRho or getPerturbedRho, input kind: random / random spline in the space / the equilibrium itself / '
